@@ -223,12 +223,15 @@ def parse_output(txt):
             cur["status"] = line[7:]
         elif line.startswith("ERR "):
             cur["err"].append(line[4:])
+        elif line.startswith("!"):
+            # annotation of the preceding result line (per-query crash / sanitizer report)
+            cur.setdefault("notes", {}).setdefault(len(cur["lines"]) - 1, []).append(line[1:])
         elif line:
             cur["lines"].append(line)
     return res
 
 
-ASAN_ENV = {"ASAN_OPTIONS": "detect_leaks=0:abort_on_error=0:exitcode=1:allocator_may_return_null=1:detect_stack_use_after_return=0",
+ASAN_ENV = {"ASAN_OPTIONS": "detect_leaks=0:halt_on_error=0:abort_on_error=0:exitcode=1:allocator_may_return_null=1:detect_stack_use_after_return=0",
             "UBSAN_OPTIONS": "print_stacktrace=0"}
 
 
